@@ -70,54 +70,7 @@ func runC03(p *core.Prog, r *core.Report) {
 	})
 
 	// ---- R3: reversible outputs forgotten at every terminal step
-	revOut := func() *types.Var { return p.Field(pkgPipe, "ForkHandler", "reversibleOutputs") }
-	for _, h := range []string{"handleStepUndo", "handleStepStalled", "handleStepFinal"} {
-		h := h
-		r.Guard("C03.R3", h, "reversible outputs forgotten", func() {
-			fn := p.Func(pkgPipe, "Pipeline."+h)
-			r.Touch(core.FuncName(fn))
-			del := core.LiftThroughCalls(core.IsMapDeleteOn(revOut()), 2)
-			exit := func(in ssa.Instruction) bool { return core.ReturnsNilError(in) }
-			hit, ok := core.MustReachAfter(fn, nil, del, exit)
-			detail := ""
-			if !ok {
-				detail = "a success return is reachable without deleting the block's entry of ForkHandler.reversibleOutputs: " + p.Pos(core.InstrPos(hit))
-			}
-			r.Check(ok, "C03.R3", h+"/forget", "every success path of "+h+" removes the block's reversible outputs (delete on ForkHandler.reversibleOutputs, directly or through a callee)", detail, p.Pos(fn.Pos()))
-		})
-	}
-	r.Guard("C03.R3", "handleStepUndo/order", "forget after handlers", func() {
-		fn := p.Func(pkgPipe, "Pipeline.handleStepUndo")
-		f := revOut()
-		reads := func(in ssa.Instruction) bool {
-			if c, ok := in.(ssa.CallInstruction); ok {
-				if callee := core.StaticFn(c.Common()); callee != nil {
-					return core.MayDo(callee, func(x ssa.Instruction) bool {
-						lk, ok := x.(*ssa.Lookup)
-						if !ok {
-							return false
-						}
-						fo, _ := core.LoadedField(lk.X)
-						return fo == f
-					}, 2)
-				}
-			}
-			return false
-		}
-		del := core.LiftThroughCalls(core.IsMapDeleteOn(f), 2)
-		nReads := len(core.FindInstrs(fn, reads))
-		if nReads == 0 {
-			core.Undecide("handleStepUndo no longer reads reversibleOutputs through a callee")
-		}
-		bad := ""
-		for _, d := range core.FindInstrs(fn, del) {
-			q := core.PathQuery{Fn: fn}
-			if hit, ok := q.CanReach(d, reads); ok {
-				bad = p.Pos(core.InstrPos(hit))
-			}
-		}
-		r.Check(bad == "", "C03.R3", "handleStepUndo/order", "the undo handlers read the block's reversible outputs before they are removed", "reversibleOutputs read after removal at "+bad, p.Pos(fn.Pos()))
-	})
+	checkReversibleForgotten(p, r, "C03.R3")
 
 	// ---- R4: undo chain in the call graph
 	r.Guard("C03.R4", "undo-chain", "call-graph reachability", func() {
@@ -132,7 +85,7 @@ func runC03(p *core.Prog, r *core.Report) {
 		ok := len(addSite) > 0
 		if ok {
 			add := p.Func(pkgPipe, "ForkHandler.addReversibleOutput")
-			ws := core.FieldWritesIn(add, revOut())
+			ws := core.FieldWritesIn(add, p.Field(pkgPipe, "ForkHandler", "reversibleOutputs"))
 			ok = len(ws) > 0
 		}
 		r.Check(ok, "C03.R4", "applyExecutionResult→addReversibleOutput", "applyExecutionResult records the module output as reversible (write to ForkHandler.reversibleOutputs)", "no recording call", p.Pos(from2.Pos()))
@@ -279,4 +232,59 @@ func checkWriters(p *core.Prog, r *core.Report, rule, what string, f *types.Var,
 	if len(ws) == 0 {
 		core.Undecide("no writer of %s found (field renamed or moved?)", what)
 	}
+}
+
+// checkReversibleForgotten (C03.R3 / C11.R6): every terminal step handler
+// forgets the block's reversible outputs on every success path, and for undo
+// only after the undo handlers ran.
+func checkReversibleForgotten(p *core.Prog, r *core.Report, rule string) {
+	revOut := func() *types.Var { return p.Field(pkgPipe, "ForkHandler", "reversibleOutputs") }
+	for _, h := range []string{"handleStepUndo", "handleStepStalled", "handleStepFinal"} {
+		h := h
+		r.Guard(rule, h, "reversible outputs forgotten", func() {
+			fn := p.Func(pkgPipe, "Pipeline."+h)
+			r.Touch(core.FuncName(fn))
+			del := core.LiftThroughCalls(core.IsMapDeleteOn(revOut()), 2)
+			exit := func(in ssa.Instruction) bool { return core.ReturnsNilError(in) }
+			hit, ok := core.MustReachAfter(fn, nil, del, exit)
+			detail := ""
+			if !ok {
+				detail = "a success return is reachable without deleting the block's entry of ForkHandler.reversibleOutputs: " + p.Pos(core.InstrPos(hit))
+			}
+			r.Check(ok, rule, h+"/forget", "every success path of "+h+" removes the block's reversible outputs (delete on ForkHandler.reversibleOutputs, directly or through a callee)", detail, p.Pos(fn.Pos()))
+		})
+	}
+	r.Guard(rule, "handleStepUndo/order", "forget after handlers", func() {
+		fn := p.Func(pkgPipe, "Pipeline.handleStepUndo")
+		f := revOut()
+		reads := func(in ssa.Instruction) bool {
+			if c, ok := in.(ssa.CallInstruction); ok {
+				if callee := core.StaticFn(c.Common()); callee != nil {
+					return core.MayDo(callee, func(x ssa.Instruction) bool {
+						lk, ok := x.(*ssa.Lookup)
+						if !ok {
+							return false
+						}
+						fo, _ := core.LoadedField(lk.X)
+						return fo == f
+					}, 2)
+				}
+			}
+			return false
+		}
+		del := core.LiftThroughCalls(core.IsMapDeleteOn(f), 2)
+		nReads := len(core.FindInstrs(fn, reads))
+		if nReads == 0 {
+			core.Undecide("handleStepUndo no longer reads reversibleOutputs through a callee")
+		}
+		bad := ""
+		for _, d := range core.FindInstrs(fn, del) {
+			q := core.PathQuery{Fn: fn}
+			if hit, ok := q.CanReach(d, reads); ok {
+				bad = p.Pos(core.InstrPos(hit))
+			}
+		}
+		r.Check(bad == "", rule, "handleStepUndo/order", "the undo handlers read the block's reversible outputs before they are removed", "reversibleOutputs read after removal at "+bad, p.Pos(fn.Pos()))
+	})
+
 }
